@@ -185,8 +185,15 @@ class Injector:
         def __init__(self, inj):
             self._inj = inj
 
+        # every other os function that changes a file is a numbered operation too (a fault / a process death can hit it): code that
+        # bypasses open() / os.replace() - os.open + os.write + os.ftruncate, os.rename, os.link ... - is covered the same way
+        COUNTED = ("open", "write", "pwrite", "writev", "ftruncate", "truncate", "close", "fsync", "fdatasync", "rename", "renames", "link", "symlink", "unlink", "utime")
+
         def __getattr__(self, name):
-            return getattr(os, name)
+            real = getattr(os, name)
+            if name in Injector.OsProxy.COUNTED:
+                return lambda *a, **k: self._inj.op("os." + name, None, lambda: real(*a, **k))
+            return real
 
         def replace(self, a, b):
             return self._inj.op("replace", None, lambda: os.replace(a, b))
